@@ -210,6 +210,11 @@ func c16Lists(w world) (bases [][]string) {
 		{w.root.Ext(), ch[2].Ext()}, // nested
 		{w.root.Ext(), ref.Vox{H: h + 1, X: w.root.X, Y: w.root.Y, V: v, F: w.root.F}.Ext(), ref.Vox{H: h, X: w.root.X, Y: w.root.Y, V: v + 1, F: w.root.F}.Ext()}, // same numbers at other zooms
 	}
+	// a coarser voxel disjoint from other[0] followed by a finer sibling of other[0]: per-pair state that is
+	// carried over from the coarser entry (a running minimum of the target zoom) makes the answer depend on the order
+	if c := w.root.Shift(1, 0, 0); c != w.root && len(ch) > 1 {
+		bases = append(bases, []string{c.Ext(), ch[1].Ext()})
+	}
 	// a vertical stack with gaps, listed bottom, top, middle (a later entry falls between two earlier ones)
 	if a, b := w.root.Shift(0, 0, 4), w.root.Shift(0, 0, 2); a.Valid() && b.Valid() {
 		bases = append(bases, []string{w.root.Ext(), a.Ext(), b.Ext()})
